@@ -34,16 +34,16 @@ pub fn run(ctx: &Ctx) -> Outcome {
     let q = ctx.quick();
     let specs = vec![
         Spec {
-            name: "wide",
-            roots: if q { vec![("L2", true), ("L2", false)] } else { vec![("L2", true), ("L2", false), ("L3", true)] },
-            alphabet: alphabet(),
-            depth: if q { 3 } else { 4 },
-        },
-        Spec {
             name: "narrow-deep",
             roots: vec![("L1", true)],
             alphabet: narrow(),
             depth: if q { 4 } else { 6 },
+        },
+        Spec {
+            name: "wide",
+            roots: if q { vec![("L2", true), ("L2", false)] } else { vec![("L2", true), ("L2", false), ("L3", true)] },
+            alphabet: alphabet(),
+            depth: if q { 3 } else { 4 },
         },
     ];
     run_check(ctx, "C07", Oracles { restore: true, structure: true, ..Default::default() }, specs, &[
